@@ -5,7 +5,7 @@
    is its count and wordnet.synsets(word). *)
 From Coq Require Import ZArith QArith List Bool Permutation.
 Import ListNotations.
-Require Import WnV.Base.Sx WnV.Model.Taxonomy WnV.Model.Ic WnV.Proofs.TaxSpec WnV.Proofs.IcProofs WnV.Proofs.IcConserve.
+Require Import WnV.Base.Sx WnV.Model.Taxonomy WnV.Model.Ic WnV.Proofs.TaxSpec WnV.Proofs.IcProofs WnV.Proofs.IcConserve WnV.Proofs.IcRoot.
 
 (* (1) the loop credits exactly the word synset and its hypernym ancestors, each once *)
 Theorem C15_ancestors_exact : forall hyp fuel x l,
@@ -133,6 +133,39 @@ Theorem C15_information_content :
       /\ nlog (probability cls smoothing ev u) <= nlog (probability cls smoothing ev t).
 Proof. exact information_content_props. Qed.
 Print Assumptions C15_information_content.
+
+(* (8) the root of a single-rooted class carries the whole class: when every corpus word synset
+   of t's class reaches t, weight t = class total, probability exactly 1, information content 0
+   (the diamond below is an instance: d weighs as much as the total) *)
+Theorem C15_root_weight_is_total : forall hyp cls fuel distribute corpus ev smoothing t,
+    compute_events hyp cls fuel distribute corpus = Ok ev ->
+    (forall w, In w corpus -> (0 <= cw_count w)%Z) ->
+    (0 <= cls t)%Z ->
+    (forall w s, In w corpus -> In s (cw_synsets w) -> cls s = cls t -> reach hyp s t) ->
+    entry smoothing ev (Syn t) == entry smoothing ev (Total (cls t)).
+Proof. exact root_weight_is_total. Qed.
+Print Assumptions C15_root_weight_is_total.
+
+Theorem C15_root_probability_one : forall hyp cls fuel distribute corpus ev smoothing t,
+    compute_events hyp cls fuel distribute corpus = Ok ev ->
+    (forall w, In w corpus -> (0 <= cw_count w)%Z) ->
+    0 < smoothing -> (0 <= cls t)%Z ->
+    (forall w s, In w corpus -> In s (cw_synsets w) -> cls s = cls t -> reach hyp s t) ->
+    probability cls smoothing ev t == 1.
+Proof. exact root_probability_one. Qed.
+Print Assumptions C15_root_probability_one.
+
+Theorem C15_root_information_content_zero :
+  forall hyp cls (nlog : Q -> Q),
+    nlog 1 == 0 -> (forall p q, p == q -> nlog p == nlog q) ->
+    forall fuel distribute corpus ev smoothing t,
+      compute_events hyp cls fuel distribute corpus = Ok ev ->
+      (forall w, In w corpus -> (0 <= cw_count w)%Z) ->
+      0 < smoothing -> (0 <= cls t)%Z ->
+      (forall w s, In w corpus -> In s (cw_synsets w) -> cls s = cls t -> reach hyp s t) ->
+      nlog (probability cls smoothing ev t) == 0.
+Proof. exact root_information_content_zero. Qed.
+Print Assumptions C15_root_information_content_zero.
 
 (* non-vacuity: the diamond a -> b, c -> d with corpus [a]: every synset ends at 1 + 1 *)
 Example C15_diamond :
